@@ -132,7 +132,7 @@ def emit() -> dict[str, str]:
     unary_pre = _cmp(un, lambda s: s == "predicted_external", lambda s: s == cap, "unary pre-flight")
     exch_pre = _cmp(ex, lambda s: s == "predicted_external", lambda s: s == cap, "exchange pre-flight")
     prod_pre = _cmp(pr, lambda s: s.replace(" ", "") == "cumulative_external_bytes+predicted", lambda s: s == "max_external_bytes", "producer pre-flight")
-    prod_cont = _cmp(pr, lambda s: s == "resp_buf.tell()", lambda s: s == "max_bytes", "producer should_continue")
+    prod_cont = _cmp(pr, lambda s: s in ("resp_buf.tell()", "write_sink.tell()"), lambda s: s == "max_bytes", "producer should_continue")
     enf = _func(_tree("vgi_rpc/http/server/_responses.py"), "_enforce_response_budgets")
     enf_w = _cmp(enf, lambda s: s == "wire_bytes", lambda s: s == "wire_cap", "enforce wire")
     enf_e = _cmp(enf, lambda s: s == "external_bytes", lambda s: s == "external_cap", "enforce external")
